@@ -1,9 +1,14 @@
-"""pytest plugin:  pytest -p vlib.pytest_livemon ...   (PYTHONPATH must contain /verif and the repository under test)."""
+"""pytest plugin:  pytest -p vlib.pytest_livemon ...   (PYTHONPATH must contain /verif and the repository under test).
+VERIF_LIVEMON_SEMANTIC = comma-separated property ids whose reference-model monitors are switched on as well (default: none)."""
+import os
 
 
 def pytest_configure(config):
     from vlib import livemon
     livemon.install()
+    sem = [x for x in os.environ.get("VERIF_LIVEMON_SEMANTIC", "").split(",") if x]
+    if sem:
+        livemon.install_semantic(tuple(sem))
 
 
 def pytest_sessionfinish(session, exitstatus):
